@@ -1,7 +1,8 @@
 /-
-Grammar layer (NOT verified, differentially validated): an executable interpreter for the subset of
-pest used by `gsd-parser/src/gsd.pest`, a hand transcription of that grammar, and the conversion of
-the resulting pair tree into the typed AST.  Import-free.
+Grammar layer: an executable interpreter for the subset of pest used by `gsd-parser/src/gsd.pest`
+and the conversion of the resulting pair tree into the typed AST.  The grammar itself (`Rule`,
+`RuleTy`, `Expr`, `ruleDef`) is GENERATED from gsd.pest by `tools/pest2lean.py` into
+`Model/Gsd/Grammar.lean` on every run of `./check C19`.  Import-free.
 
 pest semantics reproduced (pest 2.x generator):
 * ordered choice, greedy repetition, `?`, `&`/`!` predicates (no tokens, position restored);
@@ -14,38 +15,10 @@ pest semantics reproduced (pest 2.x generator):
   (`"\n" | "\r\n" | "\r"`), `ASCII_DIGIT`, `ASCII_HEX_DIGIT`, `ASCII_ALPHANUMERIC`.
 -/
 import ProfiVerif.Model.Gsd.Interp
+import ProfiVerif.Model.Gsd.Grammar
 
 namespace PV.Gsd.Peg
 open PV.Gsd
-
-inductive Rule where
-  | COMMENT | WHITESPACE | any_line | any_text | start | number | hex_number | dec_number
-  | number_list | family_ident | string_literal | identifier_part | identifier
-  | prm_text | prm_text_value | ext_user_prm_data | bit_area | bit | prm_data_type_name
-  | prm_data_value_range | prm_data_value_set | prm_text_ref | prm_data_changeable | prm_data_visible
-  | module | module_reference | data_area | slot_definition | slot | slot_value_range | slot_value_set
-  | unit_diag_type | unit_diag_area | unit_diag_area_value | version_dl_definition
-  | physical_interface | jokerblock_type | setting_value | setting | statement | gsd | EOI
-  deriving Repr, DecidableEq, Inhabited
-
-inductive RuleTy where
-  | normal | silent | atomic
-  deriving Repr, DecidableEq
-
-inductive Expr where
-  | str (s : Str)
-  | insens (s : Str)            -- literal given in lower case
-  | range (lo hi : Char)
-  | any | soi | newline
-  | call (r : Rule)
-  | seq (a b : Expr)
-  | choice (a b : Expr)
-  | opt (e : Expr)
-  | star (e : Expr)
-  | plus (e : Expr)
-  | npred (e : Expr)
-  | ppred (e : Expr)
-  deriving Repr, Inhabited
 
 /-- A pest `Pair`: rule, matched text, inner pairs. -/
 inductive Pair where
@@ -72,92 +45,6 @@ def s (t : String) : Expr := .str t.toList
 def i (t : String) : Expr := .insens (t.toList.map Char.toLower)
 def c (r : Rule) : Expr := .call r
 
-def seqs : List Expr → Expr
-  | [] => .str []
-  | [e] => e
-  | e :: rest => .seq e (seqs rest)
-
-def alts : List Expr → Expr
-  | [] => .npred (.str [])
-  | [e] => e
-  | e :: rest => .choice e (alts rest)
-
-def nl : Expr := .newline
-def nls : Expr := .plus .newline
-def asciiDigit : Expr := .range '0' '9'
-def asciiHexDigit : Expr := alts [.range '0' '9', .range 'a' 'f', .range 'A' 'F']
-def asciiAlnum : Expr := alts [.range '0' '9', .range 'a' 'z', .range 'A' 'Z']
-/-- `(!NEWLINE ~ ANY)*` -/
-def restOfLine : Expr := .star (seqs [.npred nl, .any])
-/-- `(!^"end" ~ ANY)*` -/
-def upTo (endKw : String) : Expr := .star (seqs [.npred (i endKw), .any])
-def settingLines : Expr := .star (seqs [c .setting, nls])
-
-/-- Transcription of gsd.pest, rule by rule, in file order. -/
-def ruleDef : Rule → RuleTy × Expr
-  | .COMMENT => (.silent, seqs [s ";", restOfLine])
-  | .WHITESPACE => (.silent, alts [s " ", s "\t", seqs [s "\\", nl]])
-  | .any_line => (.atomic, seqs [.npred (c .start), restOfLine, nl])
-  | .any_text => (.atomic, .star (c .any_line))
-  | .start => (.atomic, seqs [s "#", i "Profibus_DP", nl])
-  | .number => (.silent, alts [c .hex_number, c .dec_number])
-  | .hex_number => (.atomic, seqs [s "0x", .plus asciiHexDigit])
-  | .dec_number => (.atomic, seqs [.opt (s "-"), .plus asciiDigit, .opt (seqs [s ".", .plus asciiDigit])])
-  | .number_list => (.normal, seqs [c .number, .star (alts [
-        seqs [s ",", c .number], seqs [s "\\", nl], seqs [s ",", s "\\", nl, c .number]])])
-  | .family_ident => (.atomic, seqs [c .number, s "@", restOfLine])
-  | .string_literal => (.atomic, seqs [s "\"", .star (seqs [.npred (s "\""), .any]), s "\""])
-  | .identifier_part => (.silent, alts [asciiAlnum, s "_", s "."])
-  | .identifier => (.atomic, .plus (c .identifier_part))
-  | .prm_text => (.normal, seqs [i "PrmText", s "=", c .number, nls,
-        .plus (seqs [c .prm_text_value, nls]), i "EndPrmText"])
-  | .prm_text_value => (.normal, seqs [i "Text", s "(", c .number, s ")", s "=", c .string_literal])
-  | .ext_user_prm_data => (.normal, seqs [i "ExtUserPrmData", s "=", c .number, c .string_literal, nls,
-        c .prm_data_type_name, c .number, .opt (alts [c .prm_data_value_range, c .prm_data_value_set]), nls,
-        .opt (c .prm_text_ref), .opt (c .prm_data_changeable), .opt (c .prm_data_visible),
-        i "EndExtUserPrmData"])
-  | .bit_area => (.normal, seqs [i "BitArea", s "(", c .number, s "-", c .number, s ")"])
-  | .bit => (.normal, seqs [i "Bit", s "(", c .number, s ")"])
-  | .prm_data_type_name => (.normal, alts [c .bit, c .bit_area, c .identifier])
-  | .prm_data_value_range => (.normal, seqs [c .number, s "-", c .number])
-  | .prm_data_value_set => (.normal, seqs [c .number, .star (seqs [s ",", c .number])])
-  | .prm_text_ref => (.normal, seqs [i "Prm_Text_Ref", s "=", c .number, nls])
-  | .prm_data_changeable => (.normal, seqs [i "Changeable", s "=", c .number, nls])
-  | .prm_data_visible => (.normal, seqs [i "Visible", s "=", c .number, nls])
-  | .module => (.normal, seqs [i "Module", s "=", c .string_literal, c .number_list, nls,
-        settingLines, .opt (c .module_reference), settingLines,
-        .star (seqs [c .data_area, nls]), settingLines, i "EndModule"])
-  | .module_reference => (.normal, seqs [c .number, nls])
-  | .data_area => (.normal, seqs [i "Data_Area_Beg", nls, settingLines, i "Data_Area_End"])
-  | .slot_definition => (.normal, seqs [i "SlotDefinition", nls, .star (seqs [c .slot, nls]),
-        i "EndSlotDefinition"])
-  | .slot => (.normal, seqs [i "Slot", s "(", c .number, s ")", s "=", c .string_literal, c .number,
-        alts [c .slot_value_range, c .slot_value_set]])
-  | .slot_value_range => (.normal, seqs [c .number, s "-", c .number])
-  | .slot_value_set => (.normal, seqs [c .number, .star (seqs [s ",", c .number])])
-  | .unit_diag_type => (.normal, seqs [i "UnitDiagType", s "=", c .number, nls,
-        upTo "EndUnitDiagType", i "EndUnitDiagType"])
-  | .unit_diag_area => (.normal, seqs [i "Unit_Diag_Area", s "=", c .number, s "-", c .number, nls,
-        .plus (seqs [c .unit_diag_area_value, nls]), i "Unit_Diag_Area_End"])
-  | .unit_diag_area_value => (.normal, seqs [i "Value", s "(", c .number, s ")", s "=", c .string_literal])
-  | .version_dl_definition => (.normal, seqs [i "Version_Firmware_Download", nls,
-        upTo "End_Version_Firmware_Download", i "End_Version_Firmware_Download"])
-  | .physical_interface => (.normal, seqs [i "Physical_Interface", s "=", c .number, nls,
-        upTo "End_Physical_Interface", i "End_Physical_Interface"])
-  | .jokerblock_type => (.normal, seqs [i "Jokerblock_Type", s "=", c .number, nls,
-        upTo "End_Jokerblock_Type", i "End_Jokerblock_Type"])
-  | .setting_value => (.silent, alts [c .string_literal,
-        seqs [.ppred (seqs [c .number, s ","]), c .number_list],
-        seqs [.ppred (seqs [c .number, s "@"]), c .family_ident],
-        c .number])
-  | .setting => (.normal, seqs [c .identifier, .opt (seqs [s "(", c .number, s ")"]), s "=", c .setting_value])
-  | .statement => (.silent, alts [c .prm_text, c .ext_user_prm_data, c .module, c .slot_definition,
-        c .unit_diag_type, c .unit_diag_area, c .version_dl_definition, c .physical_interface,
-        c .jokerblock_type, c .setting])
-  | .gsd => (.normal, seqs [.soi, c .any_text, c .start, .star nl, c .statement,
-        .star (seqs [nls, c .statement]), .star nl, c .EOI])
-  | .EOI => (.normal, .npred .any)
-
 def matchStr : Str → Str → Option Str
   | [], rest => some rest
   | _ :: _, [] => none
@@ -167,9 +54,6 @@ def matchInsens : Str → Str → Option Str
   | [], rest => some rest
   | _ :: _, [] => none
   | a :: as, b :: bs => if a = b.toLower then matchInsens as bs else none
-
-/-- `skip` body: `WHITESPACE* (COMMENT WHITESPACE*)*` (evaluated atomically). -/
-def skipExpr : Expr := .seq (.star (c .WHITESPACE)) (.star (.seq (c .COMMENT) (.star (c .WHITESPACE))))
 
 mutual
 /-- `atomic = true`: no implicit skipping, called rules produce no pairs. -/
